@@ -157,3 +157,260 @@ def held(v):
             v = strip(v[2][0])
         else:
             return v
+
+
+# ---- deepening round: divergence inside a drop, constructor → argv provenance, setters, temp-dir provenance ----------
+
+def _diverging_blocks(fn):
+    """blocks of fn (not on the unwind path) that end in a call which never returns (panic machinery, process exit)"""
+    return [bi for bi, b in enumerate(fn.blocks) if not b['cleanup'] and b['t']['t'] == 'call' and b['t'].get('to') is None]
+
+
+def may_diverge(prog, fn, _seen=None):
+    """can entering workspace function fn end in a panic / exit raised by workspace code (fn itself, the workspace
+    functions and closures it may enter)?  Panics raised inside std are outside this question."""
+    for g in prog.reach([fn]).values():
+        if _diverging_blocks(g):
+            return True
+    return False
+
+
+def divergence_points(prog, fn):
+    """blocks of fn at which control can leave fn by a panic / exit caused by workspace code: a never-returning call in
+    fn's own body, a call of a workspace function that may diverge, or a call that is handed a closure / fn item that may
+    diverge (`.unwrap_or_else(|e| panic!(..))`)"""
+    out = set(_diverging_blocks(fn))
+    for c in fn.calls:
+        if fn.blocks[c.bb]['cleanup']:
+            continue
+        tgts = list(prog.callee_fns(c)) + list(prog.fn_item_args(c))
+        if any(may_diverge(prog, g) for g in tgts):
+            out.add(c.bb)
+    return out
+
+
+def result_fate_levels(prog, e):
+    """fate kinds of the Result produced by the vocabulary call behind effect e, followed upwards through the frames
+    that merely hand it back to their caller; -> (set of kinds, [(frame fn, consumer Call | None)] for 'panics' fates)"""
+    from .lib.discard import result_fates
+    call, links = e.call, list(e.chain)
+    kinds, panics = set(), []
+    for _ in range(8):
+        fates = result_fates(prog, call.fn, call)
+        ks = {f.kind for f in fates}
+        for f in fates:
+            if f.kind == 'panics':
+                panics.append((call.fn, f.via))
+        up = ks & {'returned', 'propagated'}
+        kinds |= ks - up
+        if not up or not links:
+            if up and not links:
+                kinds |= up
+            break
+        call = links.pop().call
+    return kinds, panics
+
+
+def ctor_field_params(sl, nf):
+    """{field name: set of parameter indices of constructor nf its initial value derives from}, None when nf does not
+    return a struct literal (private helpers inlined)"""
+    nv = strip(sl.inline_deep(strip(sl.local(nf, 0))))
+    if nv[0] != 'agg':
+        return None
+    return {name: {x[2] for x in walk(fv) if x[0] == 'param' and x[1] == nf.path} for name, fv in nv[3]}
+
+
+def setter_assignments(sl, fn):
+    """{field: value} written through the `&mut self` receiver of setter fn (`self.field = v`), values in fn's terms;
+    None when fn writes through its receiver in a way that is not a plain field assignment"""
+    out = {}
+    for d in fn.partial_defs(1):
+        kind, bi, si, rv, pl = d
+        if kind != 'stmt' or len(pl) != 3 or pl[1] != '*' or not str(pl[2]).startswith('.'):
+            return None
+        out[pl[2][1:]] = strip(sl._rvalue(fn, rv, set(), 0, None))
+    return out
+
+
+def sets_param(sl, fn, field):
+    """index of the parameter of setter fn that is stored in `field` (and fn stores nothing else), else None"""
+    a = setter_assignments(sl, fn)
+    if a is None or set(a) != {field}:
+        return None
+    v = a[field]
+    return v[2] if v[0] == 'param' and v[1] == fn.path else None
+
+
+TEMPDIR_MAKERS = ('tempfile::tempdir', 'tempfile::TempDir::new', 'tempfile::Builder::tempdir', 'tempfile::Builder::<\'_, \'_>::tempdir')
+TEMPDIR_VIEWS = ('tempfile::TempDir::path', 'std::convert::AsRef::as_ref', 'std::ops::Deref::deref', 'std::borrow::Borrow::borrow')
+
+
+def tempdir_path(sl, v):
+    """is v the path of a directory made by tempdir() whose TempDir is still owned (a view of it: `.path()`, `.as_ref()`,
+    not `keep` / `into_path`, not a fresh path computed elsewhere)?  Path copies (`to_path_buf`, `to_owned`, `into`)
+    of such a view name the same directory."""
+    v = strip(sl.inline_deep(strip(v)))
+    for _ in range(6):
+        if v[0] == 'call' and v[2] and v[1].split('::')[-1] in ('to_path_buf', 'to_owned', 'into', 'clone', 'from', 'as_path'):
+            v = strip(v[2][0])
+        elif v[0] == 'call' and v[1] in ('std::path::Path::join', 'std::path::PathBuf::join') and len(v[2]) == 2 and \
+                strip(v[2][1])[0] == 'const' and isinstance(strip(v[2][1])[1], str) and not strip(v[2][1])[1].startswith(('/', '..')):
+            v = strip(v[2][0])       # a literal relative sub-directory of the TempDir is removed with it
+        else:
+            break
+    if not (v[0] == 'call' and v[1] in TEMPDIR_VIEWS and len(v[2]) == 1):
+        return False
+    inner = strip(v[2][0])
+    return inner[0] == 'call' and (inner[1] in TEMPDIR_MAKERS or (inner[1].startswith('tempfile::') and inner[1].split('::')[-1] in ('tempdir', 'tempdir_in')))
+
+
+def params_in(v, fn_path):
+    return {x[2] for x in walk(v) if x[0] == 'param' and x[1] == fn_path}
+
+
+def _deref_ty(ty):
+    ty = ty.strip()
+    for pre in ('&mut ', '&', '*mut ', '*const '):
+        if ty.startswith(pre):
+            rest = ty[len(pre):].strip()
+            if rest.startswith("'") and ' ' in rest:     # &'a T
+                rest = rest.split(' ', 1)[1]
+                if rest.startswith('mut '):
+                    rest = rest[4:]
+            return rest.strip()
+    for wr in ('std::boxed::Box<',):
+        if ty.startswith(wr) and ty.endswith('>'):
+            return ty[len(wr):-1].strip()
+    return None
+
+
+def place_types(prog, fn, pl):
+    """types of every prefix of place pl (index i -> type of pl[:i+1]); None entries where the type is not known"""
+    tys = [fn.locals[pl[0]]['ty']]
+    variant = None
+    for pr in pl[1:]:
+        cur = tys[-1]
+        nxt = None
+        if cur is not None:
+            if pr == '*':
+                nxt = _deref_ty(cur)
+            elif isinstance(pr, str) and pr.startswith('@'):
+                variant = pr[1:]
+                nxt = cur
+            elif isinstance(pr, str) and pr.startswith('.'):
+                adt = prog.adts.get(cur.split('<')[0].strip())
+                if adt is not None:
+                    vs = adt.get('variants', ())
+                    v = next((x for x in vs if x['name'] == variant), None) if variant else (vs[0] if len(vs) == 1 else None)
+                    if v is not None:
+                        nxt = next((fl['ty'] for fl in v['fields'] if fl['name'] == pr[1:]), None)
+                variant = None
+        tys.append(nxt)
+    return tys
+
+
+def guard_mutations(prog, fn, guard_types):
+    """places inside (or holding) a value of a guard type that fn overwrites or borrows mutably after the value was
+    made: [(bb, what, place)].  The first assignment of a whole local is construction, not mutation."""
+    is_guard = lambda t: t is not None and t.split('<')[0].strip() in guard_types
+    out = []
+
+    def inside(pl, whole_ok):
+        tys = place_types(prog, fn, pl)
+        # a place strictly inside a guard, or (for borrows / overwritten fields of an owner) the guard itself
+        for i, t in enumerate(tys):
+            if is_guard(t) and (i < len(tys) - 1 or (whole_ok and len(pl) > 1)):
+                return True
+        return False
+
+    for bi, b in enumerate(fn.blocks):
+        for s in b['s']:
+            if s[0] != '=':
+                continue
+            if len(s[1]) > 1 and inside(s[1], True):
+                out.append((bi, 'write', s[1]))
+            rv = s[2]
+            if (rv['r'] == 'ref' and rv.get('mut')) or rv['r'] == 'rawptr':
+                p = rv['p']
+                tys = place_types(prog, fn, p)
+                if any(is_guard(t) for t in tys) and not (len(p) == 2 and p[1] == '*' and fn.locals[p[0]]['ty'].startswith('&mut ')):
+                    out.append((bi, 'mutable borrow', p))
+        t = b['t']
+        if t['t'] == 'call' and len(t.get('dest') or ()) > 1 and inside(t['dest'], True):
+            out.append((bi, 'write', t['dest']))
+    return out
+
+
+def _const_str_blocks(fn, text):
+    """blocks of fn in which the string constant `text` occurs (statement operand or call argument)"""
+    from .lib.mir import op_const, const_value
+    out = []
+
+    def is_text(o):
+        k = op_const(o) if isinstance(o, dict) else None
+        return k is not None and const_value(k) == text
+
+    for bi, b in enumerate(fn.blocks):
+        if b['cleanup']:
+            continue
+        hit = False
+        for s in b['s']:
+            if s[0] != '=':
+                continue
+            rv = s[2]
+            ops = [rv.get('o'), rv.get('a'), rv.get('b')] + list(rv.get('ops') or ())
+            hit = hit or any(is_text(o) for o in ops if o)
+        t = b['t']
+        if t['t'] == 'call':
+            hit = hit or any(is_text(a) for a in t.get('args', ()))
+        if hit:
+            out.append(bi)
+    return out
+
+
+def flag_conditions(prog, sl, fn, flag):
+    """Under which conditions on boolean fields of the converted struct (parameter 0 of conversion fn) is the literal
+    argv word `flag` emitted?  -> list (one entry per occurrence of the literal) of [(field, outcome)], or None when an
+    occurrence sits in a place whose condition is not understood.  Understood: the literal in fn's own body under
+    `if self.field` guards, and inside a closure handed to `bool::then` on such a field (`field.then(|| "--flag")`)."""
+    from .lib.guards import conditions
+    res = []
+
+    def field_of(v):
+        for x in walk(v):
+            if x[0] == 'field' and x[1][0] == 'param' and x[1][1] == fn.path and x[1][2] == 0:
+                return x[2]
+        return None
+
+    def conds_at(bb):
+        out = []
+        for cd in conditions(fn, bb, sl):
+            if cd.kind != 'bool':
+                continue
+            fld = field_of(cd.subject if cd.subject is not None else cd.value)
+            if fld is None:
+                return None
+            out.append((fld, cd.outcome))
+        return out
+
+    for bb in _const_str_blocks(fn, flag):
+        c = conds_at(bb)
+        if c is None:
+            return None
+        res.append(c)
+    for cl in prog.closures_of(fn):
+        if not _const_str_blocks(cl, flag):
+            continue
+        sites = [c for c in fn.calls if any(g.path == cl.path for g in prog.fn_item_args(c))]
+        if len(sites) != 1:
+            return None
+        c = sites[0]
+        nm = c.name or ''
+        if not (nm.split('::')[-1] == 'then' and 'bool' in nm and c.args):
+            return None
+        fld = field_of(sl.operand(fn, c.args[0]))
+        outer = conds_at(c.bb)
+        if fld is None or outer is None:
+            return None
+        res.append(outer + [(fld, True)])
+    return res
